@@ -218,6 +218,31 @@ def r11c(ctx: Ctx) -> list[Ob]:
             if has_log and has_add and back:
                 good_ret = True
         obs.append((ok if good_ret else viol)("R11c", f.qualname, "add-back", "returns log(func(exp(x - shift))) + shift (the subtracted maxima are added back)", f.loc))
+        # one shift per input is added back: func is multilinear in its (several) inputs, and exp(x_i - m)
+        # is taken for every input, so log(func(..)) misses the sum of *all* the shifts
+        per_input = any(
+            isinstance(c_, (ast.ListComp, ast.GeneratorExp))
+            and any(isinstance(x, ast.Call) and (dotted(x.func) or "").split(".")[-1] in EXP_LIKE for x in ast.walk(c_.elt))
+            and any(isinstance(x, ast.Name) and x.id == "xs" for g in c_.generators for x in ast.walk(g.iter))
+            for c_ in ast.walk(f.node)
+        )
+        if per_input:
+            summed = False
+            for r in rets:
+                for e in [r.value, *ld.expand(r.value)]:
+                    for c_ in ast.walk(e):
+                        if isinstance(c_, ast.Call):
+                            nm = (dotted(c_.func) or "").split(".")[-1]
+                            if nm == "reduce" and c_.args and (dotted(c_.args[0]) or "").split(".")[-1] in ("add", "iadd", "__add__"):
+                                summed = True
+                            if nm == "sum" and c_.args and not isinstance(c_.args[0], ast.Constant):
+                                summed = True
+                        if isinstance(c_, ast.BinOp) and isinstance(c_.op, ast.Mult) and any(isinstance(x, ast.Call) and isinstance(x.func, ast.Name) and x.func.id == "len" for x in ast.walk(c_)):
+                            summed = True
+            if summed:
+                obs.append(ok("R11c", f.qualname, "add-back:per-input", "the shifts of all inputs are summed before being added back", f.loc))
+            else:
+                obs.append(viol("R11c", f.qualname, "add-back:per-input", "every input is exponentiated after subtracting a shift, but what is added back is not the sum of the shifts over the inputs (reduce(add, ..) / sum / n * m): func multiplies its inputs, so with n >= 2 inputs the result is short of (n - 1) shifts -- wrong values for every product of log-space operands, and right for single-input reductions", f.loc))
         # every shift added back: the reduction over the list of maxima covers all inputs (reduce / sum over max_xs)
         sq = [n for n in walk_no_nested(f.node) if isinstance(n, ast.Call) and (dotted(n.func) or "").split(".")[-1] == "squeeze"]
         kd = [n for n in walk_no_nested(f.node) if isinstance(n, ast.If) and any(isinstance(x, ast.Name) and x.id == "keepdim" for x in ast.walk(n.test))]
